@@ -25,6 +25,9 @@ class LxmlEventHandler(XmlHandler):
             An instance of the class type representing the parsed content.
         """
         if isinstance(source, (etree._ElementTree, etree._Element)):
+            # A tree built by the caller may still hold comments and
+            # processing instructions, their tails belong to the parent text
+            etree.strip_tags(source, etree.Comment, etree.ProcessingInstruction)
             ctx = etree.iterwalk(source, EVENTS)
         elif self.parser.config.process_xinclude:
             xml_parser = etree.XMLParser(
